@@ -3,6 +3,7 @@
   (`Generated/Surface.lean`), against the surface the model implements — see SurfaceDefs.lean.
 -/
 import Axelar.Proofs.SurfaceDefs
+import Axelar.Model.GasService
 namespace Axelar.Surface
 open Axelar Generated
 
@@ -24,5 +25,31 @@ def gasServiceExpected : List (String × String × Bool × String × Nat) := [
 theorem gasService_surface : gasServiceSurface.map sig = gasServiceExpected := by decide
 
 theorem gasService_storage_no_alias : noAlias gasServiceStorage = true ∧ keysNodup gasServiceStorage = true := by decide
+
+end Axelar.Surface
+
+namespace Axelar.Surface
+open Axelar GasService
+
+/-- **The model changes the gas service's storage, emits events or moves funds only through an endpoint of the
+    regenerated surface.** -/
+theorem gasService_effects_only_through_surface (C : Crypto) (st : State) (ctx : Ctx) (func : String)
+    (args : List Bytes) (out : Out) (h : call C st ctx func args = .ok out)
+    (hne : out.st ≠ st ∨ out.sends ≠ [] ∨ out.events ≠ []) :
+    ∃ e ∈ Generated.gasServiceSurface, e.kind = "endpoint" ∧ e.name = func := by
+  unfold call at h
+  split at h
+  all_goals first
+    | decide
+    | skip
+  · -- the `gas_collector` view
+    exfalso
+    repeat' (first | (cases h; done) | split at h)
+    all_goals (cases h; simp at hne)
+  · -- upgradeContract: nothing changes
+    exfalso
+    repeat' (first | (cases h; done) | split at h)
+    all_goals (cases h; simp at hne)
+  · cases h
 
 end Axelar.Surface
